@@ -148,6 +148,13 @@ def generate(seed):
     # styles: cellXfs referencing number formats (builtin + custom) and fonts
     fonts = [('Calibri', 11, False), ('Arial', 10, True), ('MS Gothic', 9, False), ('A&B "Font"', 14, False)]
     custom = {164: '0.000', 165: '"a&b" 0', 166: 'yyyy\\-mm\\-dd', 167: '#,##0.00 "<€>"'}
+    # Excel in some locales redefines built-in ids (accounting / currency formats) in <numFmts>; the file's code wins
+    if rng.random() < 0.5:
+        custom[44] = '_ "¥"* #,##0.00_ ;_ "¥"* \\-#,##0.00_ ;_ "¥"* "-"??_ ;_ @_ '
+        features.add('numfmt-redefines-builtin-id')
+    if rng.random() < 0.3:
+        custom[6] = '"¥"#,##0;[Red]"¥"\\-#,##0'
+        features.add('numfmt-redefines-builtin-id')
     # id 14 is left out: its code is locale dependent (ECMA lists mm-dd-yy, Excel and this library show m/d/yyyy)
     builtin = {0: 'General', 1: '0', 2: '0.00', 9: '0%', 10: '0.00%', 49: '@', 4: '#,##0.00'}
     xfs = [(0, 0, None)]
